@@ -1,255 +1,17 @@
-//! Runtime-library operations: Remote (C20), IntoResponse (C11), builders (C10).
-#![allow(dead_code, deprecated)]
-use sylvia::cw_std::{
-    from_json, to_json_string, Addr, BankMsg, Binary, Coin, CosmosMsg, CustomMsg, DistributionMsg, Empty, Event, ReplyOn, Response, StakingMsg,
-    SubMsg, WasmMsg,
-};
-#[cfg(feature = "full")]
-use sylvia::cw_std::{AnyMsg, GovMsg, IbcMsg, IbcTimeout, Timestamp, VoteOption};
-use sylvia::into_response::IntoResponse;
-use sylvia::types::Remote;
-
-fn unhex(s: &str) -> Vec<u8> {
-    let s = s.strip_prefix('x').unwrap_or(s);
-    (0..s.len() / 2).map(|i| u8::from_str_radix(&s[2 * i..2 * i + 2], 16).unwrap()).collect()
-}
-
-// ------------------------------------------------------------------------------------------------
-// fixtures: the kinds of type parameter a Remote can carry
-// ------------------------------------------------------------------------------------------------
-pub mod fx {
-    use sylvia::ctx::{ExecCtx, InstantiateCtx, QueryCtx};
-    use sylvia::cw_std::{Response, StdError, StdResult};
-    use sylvia::{contract, interface};
-
-    pub struct Concrete;
-    #[contract]
-    impl Concrete {
-        pub const fn new() -> Self {
-            Self
-        }
-        #[sv::msg(instantiate)]
-        fn instantiate(&self, _ctx: InstantiateCtx) -> StdResult<Response> {
-            Ok(Response::new())
-        }
-        #[sv::msg(exec)]
-        fn poke(&self, _ctx: ExecCtx, n: u32) -> StdResult<Response> {
-            Ok(Response::new().add_attribute("n", n.to_string()))
-        }
-    }
-
-    pub mod iface {
-        use super::*;
-        #[interface]
-        #[sv::custom(msg=sylvia::cw_std::Empty, query=sylvia::cw_std::Empty)]
-        pub trait Counter {
-            type Error: From<StdError>;
-            type CountT: sylvia::serde::Serialize + sylvia::serde::de::DeserializeOwned + std::fmt::Debug;
-            #[sv::msg(exec)]
-            fn bump(&self, ctx: ExecCtx, by: Self::CountT) -> Result<Response, Self::Error>;
-            #[sv::msg(query)]
-            fn count(&self, ctx: QueryCtx) -> Result<u64, Self::Error>;
-        }
-    }
-
-    pub use generic::Generic;
-    pub mod generic {
-    use super::*;
-    pub struct Generic<T>(pub std::marker::PhantomData<T>);
-    #[contract]
-    impl<T> Generic<T>
-    where
-        T: sylvia::serde::Serialize + sylvia::serde::de::DeserializeOwned + std::fmt::Debug + Clone + sylvia::schemars::JsonSchema + 'static,
-    {
-        pub const fn new() -> Self {
-            Self(std::marker::PhantomData)
-        }
-        #[sv::msg(instantiate)]
-        fn instantiate(&self, _ctx: InstantiateCtx, _v: T) -> StdResult<Response> {
-            Ok(Response::new())
-        }
-    }
-    }
-}
-
-fn remote_one<T: ?Sized>(mode: &str, addr: &str) -> String {
-    let a = Addr::unchecked(addr);
-    let text = if mode == "owned" {
-        to_json_string(&Remote::<T>::new(a.clone()))
-    } else {
-        to_json_string(&Remote::<T>::borrowed(&a))
-    };
-    let text = match text {
-        Ok(t) => t,
-        Err(e) => return format!("ser-err {}", e),
-    };
-    let back: Result<Remote<T>, _> = from_json(text.as_bytes());
-    let same = match back {
-        Ok(r) => r.as_ref() == &a,
-        Err(_) => false,
-    };
-    let name = <Remote<T> as sylvia::schemars::JsonSchema>::schema_name();
-    let schema = to_json_string(&sylvia::schemars::schema_for!(Remote<T>)).unwrap_or_default();
-    // FNV of the schema text: it must not depend on T either
-    let mut h: u64 = 0xcbf29ce484222325;
-    for b in schema.bytes() {
-        h ^= b as u64;
-        h = h.wrapping_mul(0x100000001b3);
-    }
-    format!("{} back={} schema={} {:016x}", text, same, name, h)
-}
-
-/// definitions of one schema document that mentions two handles with different type parameters
-fn remote_pair_one<T: ?Sized + 'static>() -> String {
-    let mut g = sylvia::schemars::gen::SchemaGenerator::default();
-    let _ = g.subschema_for::<Remote<'static, fx::Concrete>>();
-    let _ = g.subschema_for::<Remote<'static, T>>();
-    let _ = g.subschema_for::<Remote<'static, fx::Generic<u64>>>();
-    let mut defs: Vec<String> = g.definitions().keys().cloned().collect();
-    defs.sort();
-    format!("defs={}", defs.join(","))
-}
-
-fn remote_de_one<T: ?Sized>(json: &str) -> String {
-    match from_json::<Remote<T>>(json.as_bytes()) {
-        Ok(r) => format!("ok {}", to_json_string(&r.as_ref().to_string()).unwrap_or_default()),
-        Err(_) => "err".into(),
-    }
-}
-
-macro_rules! by_type {
-    ($idx:expr, $f:ident, $($arg:expr),*) => {
-        match $idx {
-            "0" => $f::<fx::Concrete>($($arg),*),
-            "1" => $f::<fx::Generic<u64>>($($arg),*),
-            "2" => $f::<fx::Generic<Vec<String>>>($($arg),*),
-            "3" => $f::<dyn fx::iface::Counter<Error = sylvia::cw_std::StdError, CountT = u32>>($($arg),*),
-            "4" => $f::<str>($($arg),*),
-            "5" => $f::<()>($($arg),*),
-            _ => "bad-op".to_string(),
-        }
-    };
-}
-
-// ------------------------------------------------------------------------------------------------
-// IntoResponse
-// ------------------------------------------------------------------------------------------------
-#[derive(sylvia::serde::Serialize, sylvia::serde::Deserialize, Clone, Debug, PartialEq, sylvia::schemars::JsonSchema)]
-#[serde(crate = "sylvia::serde")]
-#[schemars(crate = "sylvia::schemars")]
-pub struct MyCustom {
-    pub v: u32,
-}
-impl CustomMsg for MyCustom {}
-
-#[derive(sylvia::serde::Deserialize)]
-#[serde(crate = "sylvia::serde")]
-struct MsgSpec {
-    kind: String,
-    id: u64,
-    gas: Option<u64>,
-    reply_on: String,
-    payload: String,
-    n: u64,
-}
-
-#[derive(sylvia::serde::Deserialize)]
-#[serde(crate = "sylvia::serde")]
-struct RespSpec {
-    msgs: Vec<MsgSpec>,
-    attrs: Vec<(String, String)>,
-    events: Vec<(String, Vec<(String, String)>)>,
-    data: Option<String>,
-}
-
-fn cosmos_msg(kind: &str, n: u64) -> Option<CosmosMsg<Empty>> {
-    let s = format!("a{}", n);
-    Some(match kind {
-        "bank" => CosmosMsg::Bank(BankMsg::Send { to_address: s, amount: vec![Coin::new(n as u128, "utok")] }),
-        "burn" => CosmosMsg::Bank(BankMsg::Burn { amount: vec![Coin::new(n as u128, "utok")] }),
-        "wasm" => CosmosMsg::Wasm(WasmMsg::Execute { contract_addr: s, msg: Binary::from(vec![n as u8; (n % 5) as usize]), funds: vec![] }),
-        "wasm_inst" => CosmosMsg::Wasm(WasmMsg::Instantiate { admin: None, code_id: n, msg: Binary::default(), funds: vec![], label: s }),
-        "custom" => CosmosMsg::Custom(Empty {}),
-        "staking" => CosmosMsg::Staking(StakingMsg::Delegate { validator: s, amount: Coin::new(n as u128, "ustake") }),
-        "distribution" => CosmosMsg::Distribution(DistributionMsg::SetWithdrawAddress { address: s }),
-        #[cfg(feature = "full")]
-        "ibc" => CosmosMsg::Ibc(IbcMsg::CloseChannel { channel_id: s }),
-        #[cfg(feature = "full")]
-        "ibc_transfer" => CosmosMsg::Ibc(IbcMsg::Transfer {
-            channel_id: s.clone(),
-            to_address: s,
-            amount: Coin::new(n as u128, "utok"),
-            timeout: IbcTimeout::with_timestamp(Timestamp::from_nanos(n)),
-            memo: None,
-        }),
-        #[cfg(feature = "full")]
-        "gov" => CosmosMsg::Gov(GovMsg::Vote { proposal_id: n, option: VoteOption::Yes }),
-        #[cfg(feature = "full")]
-        "any" => CosmosMsg::Any(AnyMsg { type_url: s, value: Binary::from(vec![1, 2, 3]) }),
-        #[cfg(feature = "full")]
-        "stargate" => CosmosMsg::Stargate { type_url: s, value: Binary::from(vec![9]) },
-        _ => return None,
-    })
-}
-
-fn reply_on(s: &str) -> ReplyOn {
-    match s {
-        "always" => ReplyOn::Always,
-        "success" => ReplyOn::Success,
-        "error" => ReplyOn::Error,
-        _ => ReplyOn::Never,
-    }
-}
-
-fn intoresp(json: &str) -> String {
-    let spec: RespSpec = match from_json(json.as_bytes()) {
-        Ok(s) => s,
-        Err(e) => return format!("bad-spec {}", e),
-    };
-    let mut resp = Response::<Empty>::new();
-    for m in &spec.msgs {
-        let Some(msg) = cosmos_msg(&m.kind, m.n) else { return "bad-kind".into() };
-        resp.messages.push(SubMsg { id: m.id, payload: Binary::from(unhex(&m.payload)), msg, gas_limit: m.gas, reply_on: reply_on(&m.reply_on) });
-    }
-    for (k, v) in &spec.attrs {
-        resp = resp.add_attribute(k.clone(), v.clone());
-    }
-    for (ty, attrs) in &spec.events {
-        let mut e = Event::new(ty.clone());
-        for (k, v) in attrs {
-            e = e.add_attribute(k.clone(), v.clone());
-        }
-        resp = resp.add_event(e);
-    }
-    resp.data = spec.data.as_ref().map(|d| Binary::from(unhex(d)));
-    let before = to_json_string(&resp).unwrap_or_default();
-    match IntoResponse::<MyCustom>::into_response(resp) {
-        Ok(out) => {
-            let after = to_json_string(&out).unwrap_or_default();
-            format!("ok same={} msgs={}", before == after, out.messages.len())
-        }
-        Err(e) => format!("err {}", e),
-    }
-}
+//! Runtime-library operations, one module per property so that each can be built alone (cargo features `remote`, `intoresp`).
+#[cfg(feature = "intoresp")]
+#[path = "intoresp.rs"]
+mod intoresp;
+#[cfg(feature = "remote")]
+#[path = "remote.rs"]
+mod remote;
 
 pub fn run(op: &str, rest: &str) -> String {
     match op {
-        "remote" => {
-            let mut it = rest.splitn(3, ' ');
-            let (idx, mode, addr) = (it.next().unwrap_or(""), it.next().unwrap_or(""), it.next().unwrap_or(""));
-            let addr = String::from_utf8(unhex(addr)).unwrap_or_default();
-            by_type!(idx, remote_one, mode, &addr)
-        }
-        "remote-pair" => {
-            let idx = rest.trim();
-            by_type!(idx, remote_pair_one, )
-        }
-        "remote-de" => {
-            let mut it = rest.splitn(2, ' ');
-            let (idx, json) = (it.next().unwrap_or(""), it.next().unwrap_or(""));
-            by_type!(idx, remote_de_one, json)
-        }
-        "intoresp" => intoresp(rest),
+        #[cfg(feature = "remote")]
+        "remote" | "remote-pair" | "remote-de" => remote::run(op, rest),
+        #[cfg(feature = "intoresp")]
+        "intoresp" => intoresp::run(op, rest),
         _ => format!("bad-op {}", op),
     }
 }
